@@ -210,7 +210,7 @@ impl Prop for C10 {
                 Err(e) if e == "WATCHDOG" => {
                     // a hang must reproduce three times in a row to count
                     if attempts >= 3 {
-                        trial.fail("C10/hang", "a side of the session did not finish within 10 s in three consecutive runs of this case".to_string());
+                        trial.fail("C10/hang", "a side of the session did not finish within 20 s in three consecutive runs of this case".to_string());
                         o = trial;
                         break;
                     }
@@ -235,7 +235,7 @@ impl Prop for C10 {
         vec![
             "the QUIC streams are replaced by tokio in-memory duplex streams; a cut is modelled as a clean EOF or as a ConnectionReset read error".into(),
             "mirrored counters and merged stores are asserted only for fault-free runs: after a truncation at a frame boundary a clean EOF is indistinguishable from the regular end of a session".into(),
-            "a hang is reported only if the 10 s watchdog fires in three consecutive runs of the same case".into(),
+            "a hang is reported only if the 20 s watchdog fires in three consecutive runs of the same case".into(),
         ]
     }
 
@@ -363,7 +363,7 @@ fn is_abort(f: &Frame) -> Option<u8> {
     }
 }
 
-const WATCHDOG: Duration = Duration::from_secs(10);
+const WATCHDOG: Duration = Duration::from_secs(20);
 
 fn vs_bob(ctx: &mut Ctx, local: &[Small], peer: &[Small], accept: u8, script: &[Sym], o: &mut Outcome) -> R<()> {
     o.class("script-vs-acceptor");
